@@ -275,6 +275,10 @@ def op_of_event(ev):
         return ('rename' if ev[3] == 'same_fs' else 'copymove') + ':%s:%s' % (ev[1], 'data' if ev[2].startswith('data') else ev[2])
     if k == 'truncate':
         return 'truncate:data'
+    if k == 'copy-open':
+        return 'copy-open:%s:%s' % (ev[1], 'data' if ev[2].startswith('data') else ev[2])
+    if k == 'copy-close':
+        return 'copy-close:' + ('data' if ev[1].startswith('data') else ev[1])
     return k
 
 
@@ -294,6 +298,8 @@ def groups_of(events):
                 cur[2] = ev[2]
             if ev[0] == 'unlink' and ev[1].startswith('data') and cur[2] is None:
                 cur[2] = ev[1]
+            if ev[0] == 'copy-open' and ev[2].startswith('data') and cur[2] is None:
+                cur[2] = ev[2]
     if cur is not None:
         gs.append(cur)
     return gs
@@ -722,7 +728,7 @@ def crash_selector(tier, rng, exhaustive):
         n = len(events)
         if exhaustive or n <= 40:
             return list(range(n + 1))
-        pts = set(range(0, 4)) | set(range(n - 6, n + 1))
+        pts = set(range(0, 4)) | set(range(n - 12, n + 1))
         # around the places where the buffer (8192) spills, and a seeded sample
         total = 0
         for i, e in enumerate(events):
@@ -731,7 +737,7 @@ def crash_selector(tier, rng, exhaustive):
                 total += len(e[1])
                 if total // 8192 != before:
                     pts.update([i, i + 1])
-        for _ in range(12):
+        for _ in range(8):
             pts.add(rng.randint(0, n))
         return sorted(p for p in pts if 0 <= p <= n)
     return points
@@ -799,7 +805,7 @@ def run(ck):
                     acc.count('corpus:' + fn[:-5])
                     idx += 1
         n_scn = 8 if quick else 160
-        n_sel = 9 if quick else 25
+        n_sel = 8 if quick else 25
         jobs = [(i, gen_params(ck.rng, i, ck.tier), ck.seed, ck.tier, n_sel, ck.scratch, tmp_same, tmp_shm)
                 for i in range(n_scn)]
         if quick:
